@@ -36,7 +36,7 @@ func (r *zzSymReader) Read(p []byte) (int, error) {
 // the call that crosses the limit returns ErrSizeLimitExceeded; it never
 // reports more bytes than the underlying reader produced or the buffer holds.
 func ZZC01_limitread() {
-	K := 3 + zzTier()*2
+	K := 3 + zzTier()
 	limit := zzInt("limit", 0, 6+zzTier()*2)
 	src := &zzSymReader{}
 	lr := &LimitRead{Reader: src, Limit: int64(limit)}
